@@ -689,7 +689,8 @@ def mkOp (x : CS) (toks : List String) : Prog OpOut :=
     match h.toNat? with
     | some id =>
       match s.find id with
-      | some hd => do na (.verify hd.mt.ptrOff hd.mt.ptrSize); pure (.text s!"verify {id}")
+      | some hd => if hd.kind == .slot then pure (.text "r=nohandle") else do
+          na (.verify hd.mt.ptrOff hd.mt.ptrSize); pure (.text s!"verify {id}")
       | none => pure (.text "r=nohandle")
     | none => pure (.text "bad-op")
   | ["drop", h] => match h.toNat? with | some id => dropP id false false | none => pure (.text "bad-op")
